@@ -29,12 +29,14 @@ func vhSourceFiles(n int) {
 			f := &PackagesFacade{
 				fileSet:        token.NewFileSet(),
 				files:          make(map[string]*ast.File),
+				sourceFiles:    make(map[string]struct{}),
 				fileToPackage:  make(map[string]*packages.Package),
 				packagesCache:  make(map[string]*packages.Package),
 				packageToFiles: map[string][]*ast.File{},
 			}
 			for _, p := range paths {
 				f.files[p] = &ast.File{Name: ast.NewIdent(p)}
+				f.sourceFiles[p] = struct{}{}
 			}
 			return f
 		}
@@ -63,6 +65,7 @@ func VhNewFacade() *PackagesFacade {
 	return &PackagesFacade{
 		fileSet:        token.NewFileSet(),
 		files:          make(map[string]*ast.File),
+		sourceFiles:    make(map[string]struct{}),
 		fileToPackage:  make(map[string]*packages.Package),
 		packagesCache:  make(map[string]*packages.Package),
 		packageToFiles: map[string][]*ast.File{},
@@ -122,7 +125,7 @@ func vh_C20_glob_filter_E_Q() {
 
 // VhRegister makes a type-checked package and one of its files known to the facade the way a load would.
 func VhRegister(f *PackagesFacade, pkg *packages.Package, absPath string, file *ast.File) {
-	f.registerParsedFile(absPath, file, pkg)
+	f.registerParsedFile(absPath, file, pkg, true)
 	f.packagesCache[pkg.PkgPath] = pkg
 }
 
@@ -130,4 +133,49 @@ func VhRegister(f *PackagesFacade, pkg *packages.Package, absPath string, file *
 // not source files.
 func VhCachePackage(f *PackagesFacade, pkg *packages.Package) {
 	f.packagesCache[pkg.PkgPath] = pkg
+}
+
+// C20/C19 (glob filter, on-demand loads; engine-only): a package loaded later because a globbed controller uses one
+// of its types (GetPackage, no file filter) must not add its files to the source files the pipeline walks for
+// controllers - neither in this analysis nor in a repeated one.
+func vh_C20_glob_filter_on_demand_E_Q() {
+	if !symxIsSymbolic() {
+		return
+	}
+	f := VhNewFacade()
+	mk := func(name string) *ast.File {
+		tf := f.fileSet.AddFile(name, -1, 100)
+		return &ast.File{Package: token.Pos(tf.Base()), Name: ast.NewIdent("p")}
+	}
+	a, b := mk("/p/a.go"), mk("/p/b.go")
+	r1, r2 := mk("/r/r1.go"), mk("/r/r2.go")
+	p := &packages.Package{PkgPath: "example.com/p", Name: "p", Fset: f.fileSet, Syntax: []*ast.File{a, b}}
+	r := &packages.Package{PkgPath: "example.com/r", Name: "r", Fset: f.fileSet, Syntax: []*ast.File{r1, r2}}
+	VhLoadResult = []*packages.Package{p}
+	relevant := map[string]struct{}{"/p/a.go": {}}
+	if symxBool("bothMatched") {
+		relevant["/p/b.go"] = struct{}{}
+	}
+	symxAssume(f.loadPackagesFiltered([]string{"/p"}, relevant) == nil)
+	before := len(f.GetAllSourceFiles())
+	symxAssert(before == len(relevant), "C20.glob-filter.only-glob-matched-files-are-source-files")
+	// a visitor resolves a type of package r
+	VhLoadResult = []*packages.Package{r}
+	var pkg *packages.Package
+	var err error
+	if symxBool("viaGetPackages") {
+		var pkgs []*packages.Package
+		pkgs, err = f.GetPackages([]string{"example.com/r"})
+		if len(pkgs) == 1 {
+			pkg = pkgs[0]
+		}
+	} else {
+		pkg, err = f.GetPackage("example.com/r")
+	}
+	symxAssume(err == nil)
+	symxCover("C20.glob-filter.on-demand-load")
+	symxAssert(pkg == r, "C20.glob-filter.on-demand-package-is-served")
+	got, _ := f.GetPackageForFile(r1)
+	symxAssert(got == r, "C20.glob-filter.on-demand-files-map-to-their-package")
+	symxAssert(len(f.GetAllSourceFiles()) == before, "C20.glob-filter.on-demand-load-adds-no-source-files")
 }
